@@ -18,7 +18,7 @@ import (
 //   - onepass.Build / DFA.Search  vs  the Lean transliteration (`Caps.OnePass.build/search`) and vs the anchored reference
 //     `Caps.btCapsAnchored` for every non-nil answer (theorem onepass_eq_btCaps gives the converse direction only)
 func c03EngineTies(r *Report, known []Finding, root *RNG) {
-	np := 140
+	np := 400
 	if r.Tier == "thorough" {
 		np = 900
 	}
@@ -263,7 +263,7 @@ func dumpProg(p string, flags syntax.Flags) (string, int, bool) {
 // c03SpecValidation: the Lean transliteration of regexp's own backtracker (Cx.GoRef, run on the toolchain's compiled
 // program) must return what the real regexp package returns — this is what "equals regexp" means on the Lean side.
 func c03SpecValidation(r *Report, root *RNG) {
-	np := 250
+	np := 600
 	if r.Tier == "thorough" {
 		np = 2500
 	}
